@@ -54,7 +54,7 @@ def main():
             name = d[:-3]
             rc1, o1 = sh(['cargo', 'test', '--offline', '--test', name], cwd=wt)
             res[name] = {'fails_with_patch': rc1 != 0}
-        sh(['git', 'checkout', '--', 'src'], cwd=wt)
+        sh(['git', 'checkout', 'HEAD', '--', 'src'], cwd=wt)
         for d in demos:
             name = d[:-3]
             rc2, o2 = sh(['cargo', 'test', '--offline', '--test', name], cwd=wt)
